@@ -435,6 +435,21 @@ pub fn f_lib(_thorough: bool) -> Vec<Ty> {
     out.push(lib("ArrayString", "vglue::arrayvec::ArrayString<8>", p(String)));
     out.push(lib("CowStr", "std::borrow::Cow<'static, str>", p(String)));
     out.push(Ty::Seq(Vec, b(lib("ArcStr", "std::sync::Arc<str>", p(String)))));
+    // time / net / misc (wire-equivalent descriptions of the documented encodings)
+    out.push(lib("Duration", "std::time::Duration", p(U128)));
+    out.push(lib("SystemTime", "std::time::SystemTime", p(U128)));
+    out.push(lib("DateTimeUtc", "vglue::chrono::DateTime<vglue::chrono::Utc>", p(I64)));
+    out.push(lib("Canary1", "savefile::Canary1", p(U32)));
+    out.push(lib("Range", "std::ops::Range<u32>", Ty::Tuple(vec![p(U32), p(U32)])));
+    let ip_wire = enm(None, false, vec![tuple_variant("IPV4", &[p(U32)], None), tuple_variant("IPV6", &[p(U128)], None)]);
+    out.push(lib("IpAddr", "std::net::IpAddr", ip_wire));
+    let sock_wire = enm(
+        None,
+        false,
+        vec![tuple_variant("IPV4", &[p(U16), p(U32)], None), tuple_variant("IPV6", &[p(U16), p(U128), p(U32), p(U32)], None)],
+    );
+    out.push(lib("SocketAddr", "std::net::SocketAddr", sock_wire));
+    out.push(Ty::Seq(Vec, b(lib("Duration", "std::time::Duration", p(U128)))));
     // atomics
     for (k, r, w) in [
         ("AtomicBool", "std::sync::atomic::AtomicBool", Bool),
